@@ -253,3 +253,71 @@ pub fn annotate(mut f: Failure, env: Option<&Env>) -> Failure {
     }
     f
 }
+
+// ---------------------------------------------------------------------------
+// Thread teardown
+// ---------------------------------------------------------------------------
+
+struct AtThreadExit(Option<Box<dyn FnOnce()>>);
+
+impl Drop for AtThreadExit {
+    fn drop(&mut self) {
+        if let Some(f) = self.0.take() {
+            f();
+        }
+    }
+}
+
+thread_local! {
+    static AT_EXIT: std::cell::RefCell<AtThreadExit> = const { std::cell::RefCell::new(AtThreadExit(None)) };
+}
+
+/// When, relative to the library's own first use on the thread, the
+/// caller's thread-local (whose destructor makes the call) was first touched.
+#[derive(Clone, Copy, Debug, PartialEq, Eq, Serialize, Deserialize)]
+pub enum Teardown {
+    /// before: it is destroyed after whatever the library keeps per thread
+    RegisteredFirst,
+    /// after: it is destroyed while the library's per-thread state still lives
+    RegisteredLast,
+    /// the library is not used on the thread before the destructor runs
+    Cold,
+}
+
+/// Run `f` from the destructor of a thread-local while a thread exits —
+/// what an application does that says goodbye (StopCCN, CDN) or decodes a
+/// last datagram from a connection object kept in thread-local storage.
+/// `warm` is ordinary use of the library during the thread's life.
+/// A panic of `f` is caught inside the destructor and returned.
+pub fn at_thread_exit<R: Send + 'static>(
+    order: Teardown,
+    warm: impl FnOnce() + Send + 'static,
+    f: impl FnOnce() -> R + Send + 'static,
+) -> Option<std::thread::Result<R>> {
+    let (tx, rx) = std::sync::mpsc::channel();
+    let job: Box<dyn FnOnce() + Send> = Box::new(move || {
+        let r = std::panic::catch_unwind(std::panic::AssertUnwindSafe(f));
+        let _ = tx.send(r);
+    });
+    let t = std::thread::Builder::new().spawn(move || {
+        let arm = move || AT_EXIT.with(|h| h.borrow_mut().0 = Some(job as Box<dyn FnOnce()>));
+        match order {
+            Teardown::RegisteredFirst => {
+                arm();
+                warm();
+            }
+            Teardown::RegisteredLast => {
+                warm();
+                arm();
+            }
+            Teardown::Cold => arm(),
+        }
+    });
+    match t {
+        Ok(h) => {
+            let _ = h.join();
+            rx.try_recv().ok()
+        }
+        Err(_) => None,
+    }
+}
